@@ -69,12 +69,15 @@ impl<'a> Log<'a> {
 }
 
 const DLOGS: [i64; 8] = [0, 1, 2, 3, -1, -2, 5, 1000];
+static DEEP: std::sync::atomic::AtomicBool = std::sync::atomic::AtomicBool::new(false);
 
 fn pairs() -> Vec<(i64, i64)> {
     let mut v = vec![];
+    let deep = DEEP.load(std::sync::atomic::Ordering::Relaxed);
     for a in DLOGS {
         for b in DLOGS {
-            if [0, 1, 3, -1].contains(&a) || a == b || a == -b {
+            // (thorough tier: every pair of the menu)
+            if deep || [0, 1, 3, -1].contains(&a) || a == b || a == -b {
                 v.push((a, b));
             }
         }
@@ -83,6 +86,22 @@ fn pairs() -> Vec<(i64, i64)> {
 }
 
 fn scalar_menu(r: &BigUint) -> Vec<BigUint> {
+    let one = BigUint::from(1u8);
+    let mut v = scalar_menu_base(r);
+    if DEEP.load(std::sync::atomic::Ordering::Relaxed) {
+        for k in [1u32, 2, 3] {
+            v.push((&one << (64 * k)) - &one);
+            v.push(&one << (64 * k));
+        }
+        v.push((r - &one) / BigUint::from(2u8));
+        v.push((r + &one) / BigUint::from(2u8));
+        for e in [3001u32, 4001, 5001] {
+            v.push(BigUint::from(5u8).modpow(&BigUint::from(e), r));
+        }
+    }
+    v
+}
+fn scalar_menu_base(r: &BigUint) -> Vec<BigUint> {
     let one = BigUint::from(1u8);
     vec![
         BigUint::from(0u8),
@@ -294,6 +313,7 @@ fn q2j(c0: BigUint, c1: BigUint) -> J {
 pub fn main(args: &[String]) -> i32 {
     let mut out = util::create(&args[0]);
     let which = args.get(1).map(|s| s.as_str()).unwrap_or("all").to_string();
+    DEEP.store(args.get(2).map(|s| s == "deep").unwrap_or(false), std::sync::atomic::Ordering::Relaxed);
     writeln!(out, "{}", json!({"ev":"header","prop":"C11"})).unwrap();
     for c in crate::consts::all() {
         let mut c = c;
